@@ -14,7 +14,9 @@
     `MulRNSScalarMontgomery(ownShare, prod)` = `MRed(word, prod)`, which is fully reduced and
     equals `word · Π that/(that−this) mod q`.  (`Inverse` on the non-Montgomery difference `d`
     yields `d^(q−2)·R²`, the following `MRedLazy` by the plain `that` yields `that·d^(q−2)·R`.)
-  * `Inverse(0) = 0^(q−2) = 0` (no panic, no error), which `powMod` reproduces.
+  * `Inverse(0) = 0^(q−2) = 0` (no panic, no error), which `powMod` reproduces (it still happens
+    inside `NewCombiner` for colliding points; since fix 98b63bb `GenAdditiveShare` refuses to use
+    such a factor).
 
   So the harness compares raw output words with the model's residues, without any conversion.
   Preconditions under which the model is exact: every modulus `q` satisfies `2 < q < 2^61`, every
@@ -27,8 +29,9 @@
                                    exponent q−2), ring.Inverse
     `lagrangeCoeff`                Combiner.lagrangeCoeff (this, that ↦ that/(that−this))
     `newCombiner`                  NewCombiner (table keyed by the raw uint64 point, `spk != own`)
-    `genAdditiveShare`             Combiner.GenAdditiveShare (error rule, "first t" rule, map
-                                   miss ⇒ nil slice ⇒ panic)
+    `pointsCollide`, `lagrangeProd`, `genAdditiveShare`
+                                   Combiner.pointsCollide, Combiner.GenAdditiveShare (error rule,
+                                   "first t" rule, collision ⇒ err, map miss ⇒ nil slice ⇒ panic)
     `genShamirPolynomial`, `genShamirSecretShare`, `aggregateShares`   Thresholdizer.*
     `partyAdditiveShare`, `thresholdRun`   the reconstruction run of `testThreshold` (driver op `run`)
   Core Lean only.
@@ -185,16 +188,24 @@ def newCombiner (r : RingQP) (own : Nat) (others : List Nat) (threshold : Int) :
 def mulScalars (ms : List Nat) (a b : List Nat) : List Nat :=
   List.zipWith (fun q (ab : Nat × Nat) => ab.1 * ab.2 % q) ms (List.zip a b)
 
-/-- the loop `for _, active := range activesPoints[:threshold]` of `GenAdditiveShare`;
-`none` = map miss (`cmb.lagrangeCoeffs[active]` is a nil slice, `MulRNSScalar` slices it ⇒ panic). -/
+/-- `Combiner.pointsCollide(a, b)`: the two points are congruent modulo one of the moduli of the
+ring (`Q` primes, then `P` primes). -/
+def pointsCollide (ms : List Nat) (a b : Nat) : Bool := ms.any fun q => a % q == b % q
+
+/-- the loop `for _, active := range activesPoints[:threshold]` of `GenAdditiveShare` (in list
+order): for `active != ownPoint`, FIRST `pointsCollide(ownPoint, active)` ⇒ `err`, THEN the map
+lookup (`cmb.lagrangeCoeffs[active]` nil on a miss, `MulRNSScalar` slices it ⇒ `panic`), then the
+multiplication. -/
 def lagrangeProd (ms : List Nat) (table : List (Nat × List Nat)) (ownPoint : Nat) :
-    List Nat → List Nat → Option (List Nat)
-  | [], prod => some prod
+    List Nat → List Nat → Outcome (List Nat)
+  | [], prod => .ok prod
   | active :: rest, prod =>
     if active ≠ ownPoint then
-      match table.lookup active with
-      | none => none
-      | some c => lagrangeProd ms table ownPoint rest (mulScalars ms prod c)
+      if pointsCollide ms ownPoint active then .err
+      else
+        match table.lookup active with
+        | none => .panic
+        | some c => lagrangeProd ms table ownPoint rest (mulScalars ms prod c)
     else lagrangeProd ms table ownPoint rest prod
 
 /-- `MulRNSScalarMontgomery(poly, scalar, out)` on rows. -/
@@ -204,7 +215,9 @@ def scaleRows (ms : List Nat) (rows : Rows) (sc : List Nat) : Rows :=
 /-- `Combiner.GenAdditiveShare(activesPoints, ownPoint, ownShare)`.
 * fewer than `threshold` active points ⇒ `err`;
 * a negative threshold makes `activesPoints[:threshold]` panic;
-* an active point (≠ `ownPoint`) among the first `threshold` that is not in the table ⇒ panic;
+* going through the first `threshold` active points in order, skipping those equal to `ownPoint`:
+  a point congruent to `ownPoint` modulo some modulus ⇒ `err` (fix 98b63bb); a point that is not
+  in the table ⇒ panic; whichever comes first;
 * otherwise `ownShare` times the product of the factors of the first `threshold` active points
   different from `ownPoint` (whether or not `ownPoint` occurs among them; duplicates are not
   detected).
@@ -215,8 +228,9 @@ def genAdditiveShare (cmb : Combiner) (actives : List Nat) (ownPoint : Nat) (own
   else
     let ms := cmb.ring.ms
     match lagrangeProd ms cmb.table ownPoint (actives.take cmb.threshold.toNat) (ms.map fun q => 1 % q) with
-    | none => .panic
-    | some prod => .ok ⟨cmb.ring.nq, scaleRows ms ownShare.rows prod⟩
+    | .err => .err
+    | .panic => .panic
+    | .ok prod => .ok ⟨cmb.ring.nq, scaleRows ms ownShare.rows prod⟩
 
 /-! ## The protocol run of the property (what the test `testThreshold` does) -/
 
